@@ -135,6 +135,15 @@ M = [
  ('C09-hand-numpin-no-ttl', 'informer/numpin/numpin.go',
   '''	m.SetTTL(npi.config.MetricTTL)
 	return m''', '''	return m'''),
+ ('C04-hand-shortcut-ignores-blacklist', 'cluster.go',
+  '''	if existing != nil &&
+		pin.PinOptions.Equals(&existing.PinOptions) &&
+		len(blacklist) == 0 {
+		pin = existing
+	}''', '''	if existing != nil &&
+		pin.PinOptions.Equals(&existing.PinOptions) {
+		pin = existing
+	}'''),
  ('C04-hand-unpindag-breaks-on-error', 'cluster.go',
   '''		err = c.consensus.LogUnpin(ctx, api.PinCid(ci))
 		if err != nil {
